@@ -812,3 +812,123 @@ def sweep_c13(cfgs: list[str]):  # noqa: ANN201
                                    "agents": [{"at": at + (i if gap else 0), "place": place,
                                                "close_actor": i} for i in range(k)],
                                    "spare_s": False, "spare_r": False}  # fmt: skip
+
+
+# ---------------------------------------------------------------------------------------
+# payload classes: items that are None / falsy travel like any other item
+# ---------------------------------------------------------------------------------------
+PAYLOADS = [None, 0, "", False, (), None, 0.0, b"", "x", None]
+
+
+def payload_cases():  # noqa: ANN201
+    """one sender, one receiver (total order, so the oracle is simply 'received == sent, then
+    EndOfStream'), every path an item can take: buffered, handed to a blocked receiver, taken
+    from a blocked sender; blocking / nowait / async-for consumption"""
+    for cfg in ("stock", "eager"):
+        for cap in (0, 1, 2, "inf"):
+            for n in (1, 3, len(PAYLOADS)):
+                for reader_first in (False, True):
+                    for send_kind in ("send", "send_nowait"):
+                        for recv_kind in ("receive", "async-for", "receive_nowait"):
+                            if cap == 0 and send_kind == "send_nowait" and not reader_first:
+                                continue  # WouldBlock by construction
+
+                            if recv_kind == "receive_nowait" and (reader_first or cap == 0):
+                                continue
+
+                            yield {"t": "payload", "cfg": cfg, "cap": cap, "n": n,
+                                   "reader_first": reader_first, "send_kind": send_kind,
+                                   "recv_kind": recv_kind}  # fmt: skip
+
+
+def execute_payload(case: dict) -> dict:
+    import math
+
+    import anyio
+    from anyio import EndOfStream, WouldBlock, create_memory_object_stream
+    from anyio.lowlevel import checkpoint
+
+    viol: list = []
+    out: dict = {"viol": viol, "windows": {"payload_case": 1}, "nontrivial": True}
+    items = PAYLOADS[: case["n"]]
+    got: list = []
+    end: dict = {}
+
+    async def main() -> None:
+        cap = math.inf if case["cap"] == "inf" else case["cap"]
+        send, recv = create_memory_object_stream(cap)
+
+        async def sender() -> None:
+            if case["reader_first"]:
+                for _ in range(3):
+                    await checkpoint()
+
+            try:
+                for it in items:
+                    if case["send_kind"] == "send":
+                        await send.send(it)
+                    else:
+                        while True:
+                            try:
+                                send.send_nowait(it)
+                                break
+                            except WouldBlock:
+                                await checkpoint()
+            except BaseException as e:  # noqa: BLE001
+                end["send_exc"] = repr(e)
+            finally:
+                send.close()
+
+        async def receiver() -> None:
+            if not case["reader_first"]:
+                for _ in range(3):
+                    await checkpoint()
+
+            try:
+                if case["recv_kind"] == "async-for":
+                    async for it in recv:
+                        got.append(it)
+
+                    end["recv"] = "EndOfStream"
+                elif case["recv_kind"] == "receive":
+                    while True:
+                        got.append(await recv.receive())
+                else:
+                    while True:
+                        try:
+                            got.append(recv.receive_nowait())
+                        except WouldBlock:
+                            await checkpoint()
+            except EndOfStream:
+                end["recv"] = "EndOfStream"
+            except BaseException as e:  # noqa: BLE001
+                end["recv"] = repr(e)
+
+        with anyio.fail_after(50):
+            async with anyio.create_task_group() as tg:
+                tg.start_soon(sender)
+                tg.start_soon(receiver)
+
+        recv.close()
+
+    try:
+        run(main, config=case["cfg"])
+    except Deadlock:
+        viol.append(("C12", "payload:deadlock", {"got": repr(got)}, None))
+    except BaseException as e:  # noqa: BLE001
+        viol.append(("C12", "payload:exception-escaped", {"exc": repr(e)}, None))
+
+    same = len(got) == len(items) and all(a is b or (a == b and type(a) is type(b))
+                                          for a, b in zip(got, items))  # fmt: skip
+    if not same or end.get("send_exc"):
+        viol.append(("C12", "payload:received-differs-from-sent",
+                     {"sent": repr(items), "received": repr(got), "end": end}, None))  # fmt: skip
+        if end.get("recv") == "EndOfStream" and len(got) < len(items):
+            viol.append(("C13", "payload:EndOfStream-while-items-were-still-to-come",
+                         {"sent": repr(items), "received": repr(got)}, None))  # fmt: skip
+    elif end.get("recv") != "EndOfStream":
+        viol.append(("C13", "payload:stream-did-not-end-with-EndOfStream", {"end": end}, None))
+
+    out["sig"] = sig_of(["payload", case, repr(got), end])
+    out["log_tail"] = [[repr(items)], [repr(got)], [repr(end)]]
+    return out
